@@ -326,7 +326,12 @@ pub fn run(cfg: &Cfg) {
         // ---- in_toto_run: materials before, products after, byproducts = output and status
         if i % 5 == 0 {
             std::env::set_current_dir(&abs_root).unwrap();
-            let script = "echo out-text; echo err-text 1>&2; echo created > created-by-run.txt; exit 0";
+            // the command creates a file and rewrites every non-empty top-level regular file with other bytes
+            // of the same length, keeping its modification time (what `cp -p`, `touch -r`, `rsync -t`,
+            // reproducible-build clamping do)
+            let script = "echo out-text; echo err-text 1>&2; echo created > created-by-run.txt; \
+                for f in *; do if [ -f \"$f\" ] && [ ! -L \"$f\" ] && [ -s \"$f\" ] && [ \"$f\" != created-by-run.txt ]; then \
+                n=$(wc -c < \"$f\"); cp -p \"$f\" .keep-run; head -c \"$n\" /dev/zero | tr '\\0' 'Z' > \"$f\"; touch -r .keep-run \"$f\"; rm -f .keep-run; fi; done; exit 0";
             let before = record_artifacts(&["."], None, None);
             let run = guarded(|| in_toto_run("step", Some("."), &["."], &["."], &["sh", "-c", script], None, None, None));
             let after = record_artifacts(&["."], None, None);
@@ -335,6 +340,13 @@ pub fn run(cfg: &Cfg) {
                 if let in_toto::models::MetadataWrapper::Link(l) = mb.metadata {
                     sink.oracle(l.materials == b, "materials of a run are not the artifacts as they were before the command", &op);
                     sink.oracle(l.products == a, "products of a run are not the artifacts as they are after the command", &op);
+                    // independently of record_artifacts: every product digest is the digest of the bytes now on disk
+                    for (k, v) in &l.products {
+                        if let (Ok(c), Some(h)) = (std::fs::read(abs_root.join(k.value())), v.get(&in_toto::crypto::HashAlgorithm::Sha256)) {
+                            let want = hex(ring::digest::digest(&ring::digest::SHA256, &c).as_ref());
+                            sink.oracle(h.to_string() == want, "a product digest of a run is not the digest of the file as it is after the command", &op);
+                        }
+                    }
                     sink.oracle(l.byproducts.stdout().as_deref() == Some("out-text\n") && l.byproducts.stderr().as_deref() == Some("err-text\n") && l.byproducts.return_value() == Some(0), "byproducts of a run are not the command's output streams and exit status", &op);
                     sink.stat("run/ok");
                 }
